@@ -4,5 +4,5 @@ CONSTANTS
   MaxGen = 4
   MaxCrashes = 2
 CONSTRAINT Bound
-INVARIANTS C10Inv TypeOK
+INVARIANTS C10Inv TypeOK MemOK
 CHECK_DEADLOCK FALSE
